@@ -145,6 +145,9 @@ def worker(ctx, job):
             fsutil.wipe(real_cache)
             fsutil.wipe(dest)
             expected_keys = ["bystander"]
+            if temp == "index-only":
+                # a cache that holds nothing but raw index entries (public index::insert)
+                srv.call({"op": "index_insert", "cache": real_cache, "key": key if key is not None else "only", "opts": {"integrity": sri(OLD), "time": "1", "size": 7}})
             if temp == "warm":
                 wr.do_write(srv, real_cache, side="s", entry="oneshot", key="bystander", n=3, tag=1)
                 wr.do_write(srv, real_cache, side="s", entry="hash", n=OLD["n"], tag=OLD["tag"])
@@ -205,7 +208,13 @@ def worker(ctx, job):
                                         "%s (mutating) on %s, outside the cache root %s" % (c["sys"], p, real_cache), dict(replay, call=c))
                         continue
                     # inside the root: layout grammar with independently computed names
-                    if rel == "" or rel in existing or rel in anc:
+                    if rel == "":
+                        # the root itself may be created (mkdir -p) and read, but never removed or renamed:
+                        # that changes the directory the cache lives in
+                        if mut and c["sys"] in ("rmdir", "unlink", "unlinkat", "rename", "renameat", "renameat2"):
+                            V.violation(res, "monitor:%s/%s:cache-root-removed:%s" % (op, side, c["sys"]), "%s removes or renames the cache root itself" % c["sys"], dict(replay, call=c))
+                        continue
+                    if rel in existing or rel in anc:
                         continue
                     if re.match(r"^tmp/\.tmp[A-Za-z0-9]{6}$", rel):
                         continue
@@ -250,6 +259,8 @@ def main(tier, seed=0):
                 for i in range(0, len(KEYED), 4):
                     jobs.append({"flavour": flavour, "side": side, "temp": temp, "rootform": rootform, "ops": KEYED[i:i + 4], "keys": keys})
                 jobs.append({"flavour": flavour, "side": side, "temp": temp, "rootform": rootform, "ops": UNKEYED, "keys": []})
+        jobs.append({"flavour": flavour, "side": side, "temp": "index-only", "rootform": "abs", "ops": ["remove_fully", "remove", "index_delete", "read", "metadata", "writer"], "keys": keys[:6]})
+        jobs.append({"flavour": flavour, "side": side, "temp": "index-only", "rootform": "abs", "ops": ["list", "clear", "index_ls"], "keys": []})
     if quick:
         jobs.append({"flavour": "sync", "side": "s", "temp": "warm", "rootform": "rel", "ops": KEYED[:6] + UNKEYED, "keys": keys[:4]})
         jobs.append({"flavour": "astd", "side": "a", "temp": "warm", "rootform": "symlink", "ops": KEYED[:6] + UNKEYED, "keys": keys[:4]})
